@@ -18,7 +18,7 @@ ANCHORS = ["bitarray.py::BitArray.pack", "bitarray.py::BitArray.unpack", "bitarr
 BITS = [1, 2, 4, 8, 16, 32]
 DTS = ["int8", "int16", "int32", "int64", "uint8", "uint16", "uint32", "uint64", ">i8", ">u8", ">i4", ">u2"]      # also non-native byte order
 FLOOR_TAGS = ["b:%d" % b for b in BITS] + ["len:multiple", "len:multiple+1", "len:multiple-1", "len:<register", "w:1", "w:full", "w:mid", "style:rand", "style:ones", "style:alt",
-                                           "straddle"]
+                                           "straddle", "twin"]
 FLOOR_MONITORS = ["c13:unpack", "c13:getint", "c13:getlist", "c13:window", "c13:unpack-again"]
 N_RANDOM = {"quick": 24000, "thorough": 200000}
 
@@ -101,8 +101,19 @@ def run(case):
 
     obs = {"u": obs_u, "i": obs_i, "l": obs_l, "w": obs_w}
     done = ""
+    twin = None
+    if case.get("twin"):
+        # a second packed array with another bit width is created and used in between: objects must not share state
+        tb, tvals = case["twin"]["b"], case["twin"]["vals"]
+        twin = BA.pack(np.array(tvals, dtype=np.uint64), tb)
+        tags.append("twin")
     for ch in case["order"]:
         done += ch
+        if twin is not None:
+            tu = attempt(lambda: np.asarray(twin.unpack()).tolist())
+            tw = attempt(lambda: twin.sliding_window(min(2, len(tvals))))
+            if not tu.ok or tu.value != tvals:
+                return violated("%s: a second BitArray (b=%d) used in between unpacks to %s, expected %s" % (desc, tb, repr(tu) if not tu.ok else short(tu.value, 100), short(tvals, 100)), tags + ["twin-broken"])
         msg = obs[ch]()
         if msg:
             return violated("%s: %s (after observations '%s')" % (desc, msg, done), tags + ["obs:" + ch], expected=short(vals, 160))
@@ -141,6 +152,9 @@ def gen_case(rng, b, L, w=None, style=None, dtype=None):
     order = "".join(rng.sample("uiwl", 4)) + rng.choice(["w", "u", "l", ""])
     c = mk_case(b, dtype, values(rng, b, L, style), w, pos, order)
     c["style"] = style
+    if rng.random() < 0.25:
+        b2 = rng.choice([x for x in BITS if x != b])
+        c["twin"] = {"b": b2, "vals": values(rng, b2, rng.randint(1, 2 * (64 // b2) + 1), "rand")}
     return c
 
 
